@@ -135,7 +135,10 @@ Proof.
     destruct (save_direct _ o) as [s1 r]. cbn [fst]. intro H. eapply papi_trans; [exact H0 | exact H].
   - apply papi_refl.
   - destruct (data_of s o) as [d|]; cbn [fst]; [|apply papi_refl].
-    destruct (kv_get d k); [apply hupd_papi | apply papi_refl].
+    destruct (kv_get d k); [|apply papi_refl].
+    generalize (save_direct_papi (hupd s o (fun r => set_data r (Some (kv_del d k)))) o).
+    destruct (save_direct (hupd s o (fun r => set_data r (Some (kv_del d k)))) o) as [s1 r]. cbn [fst]. intro H.
+    eapply papi_trans; [apply hupd_papi | exact H].
   - generalize (login_papi s o u ex). destruct (login s o u ex) as [[s1 r] cks]. cbn [fst]. auto.
   - generalize (logout_papi s o). destruct (logout s o) as [s1 r]. cbn [fst]. auto.
   - generalize (PRegen s o). destruct (regenerate s o) as [[s1 r] cks]. cbn [fst]. intro H. apply papi_one. exact H.
